@@ -33,6 +33,10 @@ use tokio::io::DuplexStream;
 use tokio::sync::mpsc::{unbounded_channel, UnboundedSender};
 use tokio::task::JoinHandle;
 
+#[path = "c06_keys.rs"]
+mod c06_keys;
+use c06_keys::{has_maxlen_neighbours, run_laws, RefTargets};
+
 //------------ target --------------------------------------------------------
 
 pub struct Upd {
@@ -268,6 +272,11 @@ fn cfg_json(cfg: &Cfg) -> Value {
 
 struct Universe {
     origins: Vec<OriginK>,
+    /// groups of origins that are each other's closest neighbours as
+    /// collection keys: same prefix and ASN with different max length (one of
+    /// them max length = prefix length, built without explicit max length when
+    /// the ASN is even), same prefix and max length with the next ASN
+    families: Vec<Vec<OriginK>>,
     keys: Vec<KeyK>,
     customers: Vec<u32>,
     providers: Vec<u32>,
@@ -334,6 +343,28 @@ fn gen_universe(rng: &mut Rng, light: bool) -> Universe {
             origins.push(k);
         }
     }
+    // neighbour families (both address families): what an ordered or hashed
+    // collection at the client's target has to keep apart / find again
+    let mut families: Vec<Vec<OriginK>> = Vec::new();
+    for v6 in [false, true] {
+        let fam_max: u8 = if v6 { 128 } else { 32 };
+        let len = rng.range(8, fam_max as u64 - 2) as u8;
+        let addr = if v6 {
+            rng.next_u128() & (u128::MAX << (128 - len as u32))
+        } else {
+            (rng.next_u32() & (u32::MAX << (32 - len as u32))) as u128
+        };
+        let even = pick_asn(rng) & !1;
+        let mut fam: Vec<OriginK> = Vec::new();
+        for (ml, asn) in [(len, even), (len + 1, even), (fam_max, even), (len, even | 1), (len + 1, even | 1)] {
+            let k = (v6, addr, len, ml, asn);
+            fam.push(k);
+            if !origins.contains(&k) {
+                origins.push(k);
+            }
+        }
+        families.push(fam);
+    }
     let mut keys: Vec<KeyK> = Vec::new();
     for i in 0..4 {
         let mut ski = [0u8; 20];
@@ -352,11 +383,14 @@ fn gen_universe(rng: &mut Rng, light: bool) -> Universe {
     let mut k = keys[0].clone();
     k.2[90] ^= 1;
     keys.push(k);
+    let mut k = keys[0].clone();
+    k.0[19] ^= 1;
+    keys.push(k);
     let mut customers = vec![pick_asn(rng), rng.next_u32(), rng.next_u32(), 0, u32::MAX];
     customers.sort();
     customers.dedup();
     let providers = (0..8).map(|_| pick_asn(rng)).collect();
-    Universe { origins, keys, customers, providers, light }
+    Universe { origins, families, keys, customers, providers, light }
 }
 
 fn gen_providers(rng: &mut Rng, uni: &Universe) -> Vec<u32> {
@@ -385,6 +419,11 @@ fn next_data(cur: &Data, changes: u8, rng: &mut Rng, uni: &Universe) -> Data {
         4 if !uni.light => {
             d.origins.extend(uni.origins.iter().copied());
             d.keys.extend(uni.keys.iter().cloned());
+        }
+        5 | 6 | 7 => {
+            // a whole neighbour family at once; later toggles take single
+            // members out again
+            d.origins.extend(rng.pick(&uni.families).iter().copied());
         }
         _ => {}
     }
@@ -472,6 +511,9 @@ struct Driver<'a> {
     cdata: Data,
     /// protocol version `cdata` belongs to
     cdata_version: u8,
+    /// the same data held in three reference targets keyed by the library's
+    /// `Eq`, `Ord` and `Hash` (see `c06_keys`)
+    refs: RefTargets,
     trace: Vec<String>,
     since_step: Vec<&'static str>,
     steps: u64,
@@ -623,6 +665,7 @@ impl<'a> Driver<'a> {
             }
             ConnKind::NoState => (None, self.junk()),
         };
+        self.refs = RefTargets::from_data(&data);
         self.cdata = data;
         self.cdata_version = neg;
         let (c_end, mb_c) = tokio::io::duplex(self.cfg.c_buf);
@@ -864,6 +907,47 @@ impl<'a> Driver<'a> {
             );
             self.cdata = got;
             return;
+        }
+        // ---- the same log applied at targets that key the payload by the
+        // library's own Eq / Ord / Hash
+        let implicit_before = self.refs.implicit_maxlen_held;
+        for a in &applied {
+            if a.reset {
+                self.refs.clear();
+            }
+            for (action, payload) in &a.items {
+                self.refs.apply(*action, payload);
+            }
+        }
+        for (which, data, held) in self.refs.read_back() {
+            if data != want || held != want.len() {
+                let class_list = data.diff_classes(&want);
+                let mut types: Vec<&str> = class_list.iter().map(|c| c.split('-').next().unwrap_or(c)).collect();
+                types.dedup();
+                let types = if types.is_empty() { "duplicates".to_string() } else { types.join("+") };
+                let mut d = step_desc(&applied);
+                d["reference_target"] = json!(which);
+                d["reference_target_holds"] = self.refs.render(which);
+                d["reference_target_elements"] = json!(held);
+                d["source_snapshot_restricted"] = want.render();
+                self.violation(
+                    &format!("C06:client-data-differs-from-source-snapshot-at-{}-target:{}:{}", which, resp, types),
+                    &format!(
+                        "after a completed {} step (version {}) a target that keeps the payload handed to it in a {} holds {} elements ({}) while the source snapshot {}:{} has {}: the library's key comparison collapses, duplicates or loses items",
+                        resp, ver, which, held, if class_list.is_empty() { "same items counted twice".to_string() } else { class_list.join("+") }, eod.session, eod.serial, want.len()
+                    ),
+                    d,
+                );
+                self.cdata = got;
+                return;
+            }
+        }
+        self.ctx.obs("reference_target_comparisons", 3);
+        if has_maxlen_neighbours(&want) {
+            self.ctx.obs("steps_with_same_prefix_and_asn_under_two_max_lengths", 1);
+        }
+        if implicit_before > self.refs.implicit_maxlen_held && !any_reset {
+            self.ctx.obs("serial_steps_removing_an_origin_held_without_explicit_max_length", 1);
         }
         // ---- stored state
         let state_ok = match cstate {
@@ -1130,6 +1214,7 @@ fn run_history(ctx: &mut Ctx, cfg: &Cfg) -> HistStats {
             conn: None,
             cdata: Data::default(),
             cdata_version: 2,
+            refs: RefTargets::default(),
             trace: Vec::new(),
             since_step: Vec::new(),
             steps: 0,
@@ -1160,6 +1245,9 @@ pub fn run(ctx: &mut Ctx) {
     let miri_total = if ctx.tier == Tier::Quick { 16 } else { 48 };
     let n = ctx.stage_budget((192_000, 4_800_000), 240_000, miri_total, 0);
     let light = ctx.stage == Stage::Miri;
+    // the payload types as collection keys: Eq / Ord / Hash coherence
+    let triples = ctx.stage_budget((96_000, 2_400_000), 96_000, 480, 0);
+    run_laws(ctx, triples);
     let max_ops: u64 = if light { 5 } else { 14 };
     let mut rng = ctx.rng("histories");
     let mut steps = 0u64;
